@@ -1332,59 +1332,18 @@ func c06Enumerate(thorough bool, visit func(family string, cfg *c06Config) bool)
 		}
 	}
 
-	// Family A: features only. All subsets of versions and protocols, stream-type
-	// subsets (thorough: all 32; quick: the 8 subsets of {unary, half, full}), all
-	// 3^7 flag assignments; codecs/compressions fixed to a single explicit choice
-	// (they multiply the result and interact with nothing else; varied in family C
-	// and, thorough, left unset in a second pass).
+	// Order: the small families and the list families (D, B, C) come first so that a
+	// budget cut under load only shortens the tail of the big feature product (A).
+
+	// Family A (enumerated below, after C): features only. All subsets of versions
+	// and protocols, stream-type subsets (thorough: all 32; quick: the 8 subsets of
+	// {unary, half, full}), all 3^7 flag assignments; codecs/compressions fixed to a
+	// single explicit choice (they multiply the result and interact with nothing
+	// else; varied in family C and, thorough, left unset in a second pass).
 	streamSubsets := []int{}
 	for ss := 0; ss < 32; ss++ {
 		if thorough || ss&^(1<<0|1<<(c06Half-1)|1<<(c06Full-1)) == 0 {
 			streamSubsets = append(streamSubsets, ss)
-		}
-	}
-	for fi := 0; fi < 2187; fi++ {
-		flags := c06FlagsFromIndex(fi)
-		for vs := 0; vs < 8; vs++ {
-			for ps := 0; ps < 8; ps++ {
-				for _, ss := range streamSubsets {
-					cfg := c06Config{Versions: vs, Protocols: ps, StreamTypes: ss, Codecs: 1 << 0, Compressions: 1 << 0, Flags: flags}
-					if !visit("A-features", &cfg) {
-						return
-					}
-				}
-			}
-		}
-	}
-	// Family C: codec and compression choices of the design (6 x 4) on all
-	// version/protocol subsets with the transport flags.
-	codecChoices := []int{0, 1 << 0, 1 << 1, 1<<0 | 1<<1, 1 << 2, 1<<0 | 1<<2}
-	comprChoices := []int{0, 1 << 0, 1<<1 | 1<<3, 1<<6 - 1}
-	if !thorough {
-		codecChoices = []int{0, 1 << 2, 1<<0 | 1<<2}
-		comprChoices = []int{0, 1<<1 | 1<<3}
-	}
-	for _, cd := range codecChoices {
-		for _, cm := range comprChoices {
-			for vs := 0; vs < 8; vs++ {
-				for ps := 0; ps < 8; ps++ {
-					for _, ss := range []int{0, 1<<0 | 1<<(c06Half-1) | 1<<(c06Full-1)} {
-						for fi := 0; fi < 81; fi++ { // h2c, tls, certs, trailers
-							for _, lim := range []int{c06Unset, c06False} {
-								if !thorough && (fi%3 == 2 || lim == c06False) && vs != 0 {
-									continue
-								}
-								cfg := c06Config{Versions: vs, Protocols: ps, StreamTypes: ss, Codecs: cd, Compressions: cm,
-									Flags: c06FlagsFromIndex(fi)}
-								cfg.Flags[c06FLimit] = lim
-								if !visit("C-codecs-compressions", &cfg) {
-									return
-								}
-							}
-						}
-					}
-				}
-			}
 		}
 	}
 
@@ -1492,6 +1451,52 @@ func c06Enumerate(thorough bool, visit func(family string, cfg *c06Config) bool)
 		}
 	}
 
+	// Family C: codec and compression choices of the design (6 x 4) on all
+	// version/protocol subsets with the transport flags.
+	codecChoices := []int{0, 1 << 0, 1 << 1, 1<<0 | 1<<1, 1 << 2, 1<<0 | 1<<2}
+	comprChoices := []int{0, 1 << 0, 1<<1 | 1<<3, 1<<6 - 1}
+	if !thorough {
+		codecChoices = []int{0, 1 << 2, 1<<0 | 1<<2}
+		comprChoices = []int{0, 1<<1 | 1<<3}
+	}
+	for _, cd := range codecChoices {
+		for _, cm := range comprChoices {
+			for vs := 0; vs < 8; vs++ {
+				for ps := 0; ps < 8; ps++ {
+					for _, ss := range []int{0, 1<<0 | 1<<(c06Half-1) | 1<<(c06Full-1)} {
+						for fi := 0; fi < 81; fi++ { // h2c, tls, certs, trailers
+							for _, lim := range []int{c06Unset, c06False} {
+								if !thorough && (fi%3 == 2 || lim == c06False) && vs != 0 {
+									continue
+								}
+								cfg := c06Config{Versions: vs, Protocols: ps, StreamTypes: ss, Codecs: cd, Compressions: cm,
+									Flags: c06FlagsFromIndex(fi)}
+								cfg.Flags[c06FLimit] = lim
+								if !visit("C-codecs-compressions", &cfg) {
+									return
+								}
+							}
+						}
+					}
+				}
+			}
+		}
+	}
+
+	// Family A, the product itself.
+	for fi := 0; fi < 2187; fi++ {
+		flags := c06FlagsFromIndex(fi)
+		for vs := 0; vs < 8; vs++ {
+			for ps := 0; ps < 8; ps++ {
+				for _, ss := range streamSubsets {
+					cfg := c06Config{Versions: vs, Protocols: ps, StreamTypes: ss, Codecs: 1 << 0, Compressions: 1 << 0, Flags: flags}
+					if !visit("A-features", &cfg) {
+						return
+					}
+				}
+			}
+		}
+	}
 	// Family A again (thorough, last): the same product with codecs and compressions left to their defaults.
 	if thorough {
 		for fi := 0; fi < 2187; fi++ {
